@@ -54,6 +54,47 @@ def gen(r):
     return dom, attrs, sizes, rows, meas, N
 
 
+def gen_wide(r):
+    """a measured projection with more than 256 cells, public records that are a good proxy for the private data (drawn from the same
+    cells), stored in a compact integer type: the uniform weighting is nearly optimal, so any distortion of the objective shows"""
+    attrs = r.sample(['a', 'b', 'c', 'd'], 2)
+    dom = [[attrs[0], r.choice([17, 20])], [attrs[1], r.choice([16, 19])]]
+    sizes = dict(map(tuple, dom))
+    cells = list(itertools.product(*[range(sizes[a]) for a in attrs]))
+    support = r.sample(cells, 40)
+    N = r.choice([200, 1000])
+    table = {c: 0 for c in cells}
+    for _ in range(N):
+        table[r.choice(support)] += 1
+    rows = [list(r.choice(support)) for _ in range(120)]
+    x = np.array([table[c] for c in cells], dtype=float)
+    noise = r.choice([0.5, 2.0])
+    meas = [(np.eye(len(cells)), x + np.array([r.gauss(0, noise) for _ in cells]), noise, tuple(attrs))]
+    if r.random() < 0.5:
+        a = attrs[0]
+        xa = np.array([sum(v for c, v in table.items() if c[0] == k) for k in range(sizes[a])], dtype=float)
+        meas.append((np.eye(sizes[a]), xa, 1.0, (a,)))
+    return dom, attrs, sizes, rows, meas, N
+
+
+def gen_undetermined(r):
+    """no measurement can express the overall count (difference queries, single cells): the omitted total falls back to 1"""
+    dom, attrs, sizes, rows, meas, N = gen(r)
+    out = []
+    for Q, y, s, proj in meas:
+        p = Q.shape[1]
+        if p == 1:
+            continue
+        D = np.array([[1.0 if k == i else (-1.0 if k == i + 1 else 0.0) for k in range(p)] for i in range(p - 1)])
+        x = np.linalg.lstsq(Q, y, rcond=None)[0]
+        out.append((D, D @ x, s, proj))
+    if not out:
+        a = max(attrs, key=lambda t: sizes[t])
+        p = sizes[a]
+        out = [(np.eye(p)[:1], np.array([3.0]), 1.0, (a,))] if p > 1 else meas
+    return dom, attrs, sizes, rows, out, N
+
+
 def gen_conflict(r):
     """precise one-way answers against very noisy two-way answers that contradict them (all mass on one value of the first attribute):
     the noise weighting decides which of the two the estimator should believe"""
@@ -83,16 +124,27 @@ def run(res, drv, tier, seed):
     n = 25 if tier == 'quick' else 250
     for ci in range(n):
         conflict = ci % 6 == 5
-        dom, attrs, sizes, rows, meas, N = gen_conflict(r) if conflict else gen(r)
+        wide = ci % 6 == 1
+        undet = ci % 12 == 3
+        dom, attrs, sizes, rows, meas, N = gen_conflict(r) if conflict else (gen_wide(r) if wide else (gen_undetermined(r) if undet else gen(r)))
+        if wide:
+            res.count('directed: measured projection with more than 256 cells, good public proxy')
+        if undet:
+            res.count('directed: no measurement determines the total')
         metric = 'L1' if ci % 3 == 2 else 'L2'
         res.count('metric:' + metric)
         if conflict:
             res.count('directed: precise one-way vs noisy contradicting two-way answers')
         d = Domain(attrs, [sizes[a] for a in attrs])
         df = pd.DataFrame(np.array(rows, dtype=int), columns=attrs)
+        dtype = r.choice(['int64', 'int64', 'int32', 'int16', 'int8', 'uint8', 'uint8', 'uint16'])
+        if wide:
+            dtype = r.choice(['uint8', 'uint8', 'int8'])     # what category codes / compact loaders produce
+        df = df.astype(dtype)
+        res.count('public records stored as ' + dtype)
         pub = Dataset(df.copy(), d)
-        total = r.choice([None, float(N), 17.5])
-        canon = {'dom': dom, 'rows': rows, 'total': total, 'metric': metric, 'meas': [{'Q': Q.tolist(), 'y': y.tolist(), 'noise': s, 'proj': list(p)} for Q, y, s, p in meas]}
+        total = None if undet else r.choice([None, float(N), 17.5])
+        canon = {'dom': dom, 'rows': rows, 'total': total, 'metric': metric, 'dtype': dtype, 'meas': [{'Q': Q.tolist(), 'y': y.tolist(), 'noise': s, 'proj': list(p)} for Q, y, s, p in meas]}
         res.case(canon, len(meas) >= 2 or len(set(map(tuple, rows))) < len(rows), sample={'dom': dom, 'records': len(rows), 'projections': [list(m[3]) for m in meas], 'total': total} if ci < 3 else None)
         res.count('total given' if total is not None else 'total estimated')
         eng = PublicInference(pub, metric=metric)
